@@ -460,6 +460,26 @@ Theorem regenerated_forward_backward_is_the_model :
 Proof. exact gen_fb_step_is_model. Qed.
 Print Assumptions regenerated_forward_backward_is_the_model.
 
+Theorem regenerated_douglas_rachford_is_the_model :
+  forall (X Y : IPS) (proxF : R -> X -> X) (bs : list (pblk X Y)) (tau lam : R) (s : X * list Y),
+  gen_dr_step X Y vplus smul vplus smul proxF (map (mk X Y) bs) tau lam s
+  = dr_step X Y vplus smul vplus smul proxF (map (mk X Y) bs) tau lam s /\
+  gen_dr_p1 X Y vplus smul proxF (map (mk X Y) bs) tau s = dr_p1 X Y vplus smul proxF (map (mk X Y) bs) tau s.
+Proof. intros; split; [apply gen_dr_step_is_model | apply gen_dr_p1_is_model]. Qed.
+Print Assumptions regenerated_douglas_rachford_is_the_model.
+(* BacktrackingLineSearch: the loop skeleton is pinned by the translator, its formulas are regenerated *)
+Theorem regenerated_backtracking_is_the_model :
+  forall (X : IPS) (f : X -> R) (tau disc : R) (mni : nat) (est : bool) (alpha_st : R) (x d : X) (dd fx : R) (k : nat) (alpha : R),
+  bt_search X vplus smul f tau disc mni est alpha_st x d dd
+  = (if gen_bt_zero_derivative dd then LsZeroDeriv
+     else bt_loop X vplus smul f x d (f x) dd tau disc (S mni) (gen_bt_alpha0 est alpha_st dd)) /\
+  bt_loop X vplus smul f x d fx dd tau disc (S k) alpha
+  = (let fval := f (gen_bt_point X vplus smul x d alpha) in
+     if gen_bt_accept disc fx dd alpha fval
+     then (if gen_bt_assert fx fval then LsOk alpha else LsAssert)
+     else bt_loop X vplus smul f x d fx dd tau disc k (gen_bt_next tau alpha)).
+Proof. intros; split; [apply gen_bt_search_is_model | apply gen_bt_loop_is_model]. Qed.
+
 (* composed: the C12 clauses stated directly about the regenerated functions *)
 Theorem regenerated_cg_energy_error_nonincreasing :
   forall (X : IPS) (A : LinOp X X),
@@ -493,6 +513,32 @@ Proof.
   apply (forward_backward_fixed_point X Y f proxF); auto; split; auto.
 Qed.
 Print Assumptions regenerated_forward_backward_solution_is_fixed_point.
+
+Theorem regenerated_douglas_rachford_solution_is_fixed_point :
+  forall (X Y : IPS) (f : cfun X) (proxF : R -> X -> X),
+  convex X f -> prox_of X f proxF ->
+  forall (bs : list (pblk X Y)) (tau lam : R) (xs : X) (vss : list Y) (xh : X),
+  0 < tau ->
+  Forall (fun b => convex Y (pgc X Y b) /\ prox_of Y (pgc X Y b) (pprox X Y b) /\ 0 < psig X Y b) bs ->
+  subgrad X f xs ((- (1)) *' adjsum X Y bs vss) ->
+  Forall2 (fun b v => subgrad Y (pgc X Y b) v (pA X Y b xs)) bs vss ->
+  xh +' (- (tau / 2)) *' adjsum X Y bs (vhat X Y bs xh vss) = xs +' tau *' ((- (1)) *' adjsum X Y bs vss) ->
+  gen_dr_p1 X Y vplus smul proxF (map (mk X Y) bs) tau (xh, vhat X Y bs xh vss) = xs /\
+  gen_dr_step X Y vplus smul vplus smul proxF (map (mk X Y) bs) tau lam (xh, vhat X Y bs xh vss)
+  = (xh, vhat X Y bs xh vss).
+Proof.
+  intros X Y f proxF Hf HP bs tau lam xs vss xh Ht Hok Kf Kd C1.
+  rewrite gen_dr_p1_is_model, gen_dr_step_is_model.
+  exact (douglas_rachford_fixed_point X Y f proxF Hf HP bs tau lam xs vss xh Ht Hok Kf Kd C1).
+Qed.
+Print Assumptions regenerated_douglas_rachford_solution_is_fixed_point.
+(* power method: every x_norm of the regenerated step is bounded, |x| = 1 is preserved *)
+Theorem regenerated_power_method_step_bounded :
+  forall (X Y : IPS) (A : LinOp X Y) (K : R) (x : X) (nrm : R) (x' : X),
+  0 <= K -> bounded X Y A (K * K) -> nsq x = 1 ->
+  gen_pm_normal_step X Y smul inner sqrt A (adj A) x = Some (nrm, x') ->
+  0 <= nrm <= K * K /\ nsq x' = 1.
+Proof. exact gen_pm_normal_step_bounded. Qed.
 
 (* (2) for the solvers C11 translates (translate/solvers.py -> Gen/Solvers.v, heap-level programs run by
    C11/Interp.v, proved equal to C11's loop models in C11/GenProofs.v): the list instance of each C12
